@@ -3,7 +3,8 @@ order, purity.  Ground companion over n <= 2 (quick) / 3 (thorough) staged entri
 symbolic; labelled *bounded* in the evidence (the loop over staged tasks is unrolled)."""
 import z3
 
-from orquesta import conducting, statuses as st
+from orquesta import conducting
+from contracts import specconst as st
 
 from pyvc import sym as S
 from pyvc.engine import AbstractObj, Raised, Stub
